@@ -683,10 +683,13 @@ def sim_print(*args, **kwargs):
     s.step("print", None)
     PRINTED.append(kwargs.get("sep", " ").join(map(str, args))
                    + kwargs.get("end", "\n"))
+    me = s.me()
+    PRINT_META.append((s.seq, me.role if me is not None else "-"))
     return None
 
 
 STDERR = []
+PRINT_META = []   # (event seq, role) of each captured stdout line
 
 SCRATCH = {"dir": None, "n": 0}
 
@@ -795,6 +798,7 @@ def bind():
 
 def reset_captures(scratch_dir=None):
     del PRINTED[:]
+    del PRINT_META[:]
     del STDERR[:]
     del SYSTEM_CALLS[:]
     del READERS[:]
